@@ -63,6 +63,16 @@ print(json.dumps(out))
 '''
 
 
+def safe_program(v, x, kinds, errors):
+    """a call made by the harness itself (warm-up, sequential orders): a failure is recorded, never propagated"""
+    try:
+        return program(v, x, kinds)
+    except Exception as e:  # noqa
+        from harness import record
+        errors.append('%s|%s' % (v, record.exc_key(e)))
+        return []
+
+
 def oracle(calls):
     """digests of the calls in a fresh interpreter"""
     from harness.common import VERIF
@@ -101,6 +111,7 @@ def run_once(tid, progs, schedule, cold, fresh, fp_warm, rng):
     if cold:
         sched.reset_memo()
     fp0 = sched.fingerprint()[0] if not cold else ''
+    run_once.errors = []
     r = sched.Run({t: (lambda v=v, x=x: program(v, x, ('errors', 'tokens'))) for t, (v, x) in progs.items()},
                   schedule, block=rng.choice([7, 13, 25, 40]), offset=rng.randrange(40))
     r.run()
@@ -110,7 +121,7 @@ def run_once(tid, progs, schedule, cold, fresh, fp_warm, rng):
         # (the generated tables are only unique up to state numbering, so a cold state cannot be compared with an
         # independently generated one)
         for t, (v, x) in sorted(progs.items()):
-            program(v, x, ('errors', 'tokens'))
+            safe_program(v, x, ('errors', 'tokens'), run_once.errors)
         fp_warm = sched.fingerprint()[0]
     events = []
     for t, res in sorted(r.results.items()):
@@ -120,12 +131,13 @@ def run_once(tid, progs, schedule, cold, fresh, fp_warm, rng):
     return {'id': tid, 'events': events, 'expected': 3 * len(progs), 'warm': not cold,
             'fpBefore': interned.setdefault(fp0, len(interned) + 1), 'fpAfter': interned.setdefault(fp1, len(interned) + 1),
             'fpWarm': interned.setdefault(fp_warm, len(interned) + 1),
-            'raised': ';'.join('%s:%s' % kv for kv in sorted(r.errors.items(), key=str)),
+            'raised': ';'.join(['%s:%s' % kv for kv in sorted(r.errors.items(), key=str)] + run_once.errors[:2]),
             'schedule': schedule, 'progs': {str(k): [v[0], v[1][:60]] for k, v in progs.items()}, 'cold': cold,
             'yields': dict(r.yields)}
 
 
 run_once.interned = {}
+run_once.errors = []
 
 
 def warm_fp(version_sets):
@@ -166,7 +178,7 @@ def run(tier):
             if not cold:
                 # make sure the state is fully warm for the versions in play
                 for v, x in progs.values():
-                    program(v, x, ('errors', 'tokens'))
+                    safe_program(v, x, ('errors', 'tokens'), [])
             key = (va,) if same else (va, vb)
             # a warm run may have more versions loaded than its own: the reference is taken right before it
             fp_ref = '' if cold else sched.fingerprint()[0]
@@ -177,21 +189,22 @@ def run(tier):
         for j, perm in enumerate(itertools.permutations(vs3)):
             sched.reset_memo()
             events = []
+            seq_errors = []
             for v in perm:
                 for x in TEXTS[:2] if j % 2 else TEXTS[2:]:
-                    for key, d in program(v, x, ('errors', 'tokens')):
+                    for key, d in safe_program(v, x, ('errors', 'tokens'), seq_errors):
                         I = run_once.interned
                         events.append({'thread': 0, 'key': key, 'digest': I.setdefault(d, len(I) + 1),
                                        'fresh': I.setdefault(fresh3.get(key, 'missing'), len(I) + 1)})
             fp = sched.fingerprint()[0]
             for v in perm:                      # once more: nothing may change after first use
                 for x in TEXTS[:2] if j % 2 else TEXTS[2:]:
-                    program(v, x, ('errors', 'tokens'))
+                    safe_program(v, x, ('errors', 'tokens'), seq_errors)
             seq_ref = sched.fingerprint()[0]
             I = run_once.interned
             traces.append({'id': 100000 + j, 'events': events, 'expected': len(events), 'warm': False,
                            'fpBefore': 0, 'fpAfter': I.setdefault(fp, len(I) + 1), 'fpWarm': I.setdefault(seq_ref, len(I) + 1),
-                           'raised': '', 'schedule': ['sequential'] + list(perm), 'progs': {}, 'cold': True, 'yields': {}})
+                           'raised': ';'.join(seq_errors[:2]), 'schedule': ['sequential'] + list(perm), 'progs': {}, 'cold': True, 'yields': {}})
         sched.reset_memo()
         slim = [{k: t[k] for k in ('id', 'events', 'expected', 'warm', 'fpBefore', 'fpAfter', 'fpWarm', 'raised')}
                 for t in traces]
